@@ -146,7 +146,7 @@ fn gen_trial(r: &mut Rng) -> Trial {
             4..=6 => Op::Pause(j),
             7..=9 => Op::Resume(j),
             10 | 11 => Op::OpenGate(j),
-            12 => Op::Stop(j, r.bool()),
+            12 => Op::Stop(j + n * r.usize(2), r.bool()), // j / n = 1: the clock ticks on right after the stop request
             13 | 14 => Op::Quiesce,
             _ => {
                 let us = *r.pick(&[1u64, 10, 50, 200, 1000]);
@@ -176,6 +176,7 @@ pub struct Obs {
     pub pauses_verified: u64,
     pub resumes_verified: u64,
     pub stops_verified: u64,
+    pub stops_followed_by_clock_ticks: u64,
     pub quiescent_checks: u64,
     pub bracket_checks: u64,
     pub concurrency_witnessed: u64,
@@ -249,7 +250,7 @@ fn join_with_timeout(mut h: ResourceHandle<ManualClock>) -> Result<(ResourceHand
     }
 }
 
-fn do_stop(l: &mut Live, i: usize, via_control: bool, shared: &SharedGlobals, obs: &mut Obs) -> Result<(), Viol> {
+fn do_stop(l: &mut Live, i: usize, via_control: bool, nudge: bool, shared: &SharedGlobals, obs: &mut Obs) -> Result<(), Viol> {
     if l.stopped {
         return Ok(());
     }
@@ -258,6 +259,15 @@ fn do_stop(l: &mut Live, i: usize, via_control: bool, shared: &SharedGlobals, ob
         l.control.stop();
     } else if let Some(h) = l.handle.as_ref() {
         h.stop();
+    }
+    if nudge && l.cfg.interval_ms > 0 {
+        // the clock ticks on right after the stop request, by less than a cycle interval: the stop must not depend on
+        // the thread being asleep at this moment, nor on time reaching its next deadline
+        for _ in 0..3 {
+            l.clock.advance(Duration::from_nanos(1));
+            std::thread::yield_now();
+        }
+        obs.stops_followed_by_clock_ticks += 1;
     }
     let Some(h) = l.handle.take() else {
         return Ok(()); // an earlier join on this resource timed out and was reported
@@ -494,7 +504,7 @@ pub fn run_trial(t: &Trial, seed: u64) -> Result<Obs, Viol> {
                 let ap = rng.chance(1, 2);
                 do_resume(&mut live[*j % n], *j % n, &shared, &mut obs, ap)
             }
-            Op::Stop(j, via) => do_stop(&mut live[*j % n], *j % n, *via, &shared, &mut obs),
+            Op::Stop(j, via) => do_stop(&mut live[*j % n], *j % n, *via, (*j / n) % 2 == 1, &shared, &mut obs),
             Op::Quiesce => {
                 // pause every running resource, compare exactly, resume those that were running
                 let mut paused_here = Vec::new();
@@ -577,7 +587,7 @@ pub fn run_trial(t: &Trial, seed: u64) -> Result<Obs, Viol> {
     rng.shuffle(&mut order);
     for i in order {
         let via = rng.bool();
-        let r = do_stop(&mut live[i], i, via, &shared, &mut obs);
+        let r = do_stop(&mut live[i], i, via, i % 2 == 0, &shared, &mut obs);
         if result.is_ok() {
             if let Err(e) = r {
                 result = Err(e);
@@ -671,6 +681,7 @@ fn one(sh: &mut Shard, t: &Trial, seed: u64) -> bool {
             sh.count("pause_episodes_verified_cycle_free", o.pauses_verified);
             sh.count("resumes_followed_by_a_cycle", o.resumes_verified);
             sh.count("stops_verified", o.stops_verified);
+            sh.count("stops_followed_by_clock_ticks", o.stops_followed_by_clock_ticks);
             sh.count("stops_at_closed_gate", o.gated_stops);
             sh.count("quiescent_conservation_checks", o.quiescent_checks);
             sh.count("online_bracket_checks", o.bracket_checks);
